@@ -167,9 +167,11 @@ def run_check(pid, tier, seed, nworkers=None, verbose=True):
     for name in getattr(mod, "DECIDING", []):
         if counters.get(name, 0) == 0:
             inconclusive.append(f"deciding monitor '{name}' observed nothing")
-    nerr = status.get("error", 0) + status.get("timeout", 0)
+    nerr, nto = status.get("error", 0), status.get("timeout", 0)
     if total and nerr > max(3, 0.02 * total):
-        inconclusive.append(f"{nerr} of {total} cases ended in harness error/timeout")
+        inconclusive.append(f"{nerr} of {total} cases ended in a harness error")
+    if total and nto > max(5, 0.15 * total):
+        inconclusive.append(f"{nto} of {total} cases hit the per-case deadline (loaded machine?)")
     if hasattr(mod, "inconclusive"):
         inconclusive.extend(mod.inconclusive(tier, status, counters, cov) or [])
 
